@@ -310,8 +310,8 @@ class TokTheory(ObjTheory):
         return super().eq(ex, a, b)
 
     def contains(self, ex, container, item):
-        if isinstance(container, (OpaqueStr,)) or (isinstance(container, ObjV) and container.role in ("opaque-coll", "val")):
-            return fresh("opaque_in", B)
+        if isinstance(container, (OpaqueStr,)) or (isinstance(container, ObjV) and container.role in ("opaque-coll", "val", "list")):
+            return fresh("opaque_in", B)      # (a local list: its content is not modelled)
         if isinstance(container, Z) and container.kind == "str":
             return fresh("substr_in", B)
         return super().contains(ex, container, item)
@@ -548,6 +548,27 @@ class TokTheory(ObjTheory):
                     ex.oblige(f"{q}:{lname}:inv-preserved:{nm}", f)
                 raise PathEnd()
             ex.st.assume(sub(s, 0, i) == s)
+            ex.stmts(node.orelse)
+            return
+        if isinstance(itv, ObjV) and itv.role == "opaque-coll":
+            # a collection known only as 'some finite collection of strings' (grammar tables, their comprehensions): cut after
+            # one arbitrary iteration from a havocked loop head; exceptional exits and breaks of the body are followed
+            for nm, f in spec.inv(ex.env, ex.st, None):
+                ex.oblige(f"{q}:{lname}:inv-established:{nm}", f)
+            ex.havoc_loop(node, spec)
+            for nm, f in spec.inv(ex.env, ex.st, None):
+                ex.st.assume(f)
+            if ex.path.choose(2, f"for@{node.lineno}") == 0:
+                ex.assign(node.target, self.fresh_of_kind("str", "item"))
+                try:
+                    ex.stmts(node.body)
+                except _Break:
+                    return
+                except _Continue:
+                    pass
+                for nm, f in spec.inv(ex.env, ex.st, None):
+                    ex.oblige(f"{q}:{lname}:inv-preserved:{nm}", f)
+                raise PathEnd()
             ex.stmts(node.orelse)
             return
         raise Untranslatable(f"for loop over {itv!r}")
